@@ -2,20 +2,26 @@
 C12 — each key-exchange step is bounded by the exchange timeout.
 Property theorems only (helper lemmas live in TdModel/Lemmas/C12.lean).
 
-`steps` is regenerated from /repo/exchange/client_flow.go on every run; `all_steps_timed` and
-`steps_shape` are therefore re-decided against the *current* source.
+`steps` is the interpretation (`interp`, TdModel/Model/C12.lean) of the statement skeletons of
+`ClientExchange.Run` and of the `unencryptedWriter` methods, regenerated from
+/repo/exchange/{client_flow.go,proto.go} on every run; `all_steps_timed` and `steps_shape` are
+therefore re-decided against the *current* source.
 -/
 import TdModel.Lemmas.C12
 
 namespace TdModel.C12
 
-/-- Every transport call of `ClientExchange.Run` runs under `context.WithTimeout(ctx, w.timeout)`.
-(Fails on a tree where some step is a bare `c.conn.Recv/Send` — defect D5.) -/
+/-- Every transport call of `ClientExchange.Run` — including the re-read after a skipped −404 frame —
+is given a context derived by an unconditional `context.WithTimeout(ctx, w.timeout)`.
+(Fails on a tree where some call is bare, or where the timeout is applied conditionally.) -/
 theorem all_steps_timed : steps.all (·.timed) = true := by decide
 
 /-- The flow is the specification's three request/response pairs
-(req_pq → ResPQ, req_DH_params → Server_DH_Params, set_client_DH_params → dh_gen_*). -/
-theorem steps_shape : steps.map (·.recv) = [false, true, false, true, false, true] := by decide
+(req_pq → ResPQ, req_DH_params → Server_DH_Params, set_client_DH_params → dh_gen_*): six call
+sites, and only the ResPQ read sits in a retry loop (the −404 skip of `readUnencrypted`). -/
+theorem steps_shape :
+    steps.map (fun s => (s.recv, s.inLoop)) =
+      [(false, false), (true, true), (false, false), (true, false), (false, false), (true, false)] := by decide
 
 /-- A peer that stalls at any step: the call returns, no later than `timeout` after the step
 started, whatever the caller's deadline is — in particular with none (PFS connect, re-keying). -/
@@ -23,10 +29,10 @@ theorem stall_bounded (s : Step) (hs : s ∈ steps) (start timeout : Nat) (deadl
     ∃ t, ctxEnd s start timeout deadline = some t ∧ start ≤ t ∧ t ≤ start + timeout :=
   ctxEnd_timed s (List.all_eq_true.mp all_steps_timed s hs) start timeout deadline
 
-/-- Any peer behaviour (per step: arbitrary local computation time, arbitrary latency or silence):
-every transport call the run reaches returns within `timeout` of its start, so the run never
-blocks forever. -/
-theorem every_step_bounded (timeout : Nat) (deadline : Option Nat) (beh : List (Nat × Option Nat)) (now : Nat) :
+/-- Any peer behaviour (per step: arbitrary local computation time, any number of −404 frames with
+arbitrary latencies, then an answer with arbitrary latency or silence): every transport call the run
+executes returns within `timeout` of its own start, so the run never blocks forever. -/
+theorem every_step_bounded (timeout : Nat) (deadline : Option Nat) (beh : List Beh) (now : Nat) :
     ∀ e ∈ runTrace timeout deadline (steps.zip beh) now,
       ∃ t, e.stop = some t ∧ e.start ≤ t ∧ t ≤ e.start + timeout := by
   apply runTrace_bounded
@@ -39,6 +45,15 @@ theorem stall_at_each_step_bounded (k gap lat timeout : Nat) (deadline : Option 
       ∃ t, e.stop = some t ∧ e.start ≤ t ∧ t ≤ e.start + timeout :=
   runTrace_bounded timeout deadline _ (stallAt_timed steps k gap lat all_steps_timed) now
 
+/-- −404 frames re-arm the timeout once each and no more: a step during which the peer sends `n`
+such frames (and then anything, including nothing) is over within `(n + 1) · timeout` of its start;
+with `n = 0` — the silent peer of the property — within `timeout`. -/
+theorem step_with_skips_bounded (s : Step) (hs : s ∈ steps) (timeout : Nat) (deadline : Option Nat)
+    (skips : List Nat) (final : Option Nat) (start : Nat) :
+    ∀ e ∈ (callRun s timeout deadline skips final start).1,
+      ∃ t, e.stop = some t ∧ t ≤ start + (skips.length + 1) * timeout :=
+  callRun_total s (List.all_eq_true.mp all_steps_timed s hs) timeout deadline skips final start
+
 /-- The default per-request exchange timeout is the documented one minute (in ns). -/
 theorem default_timeout_is_one_minute : Facts.C12.defaultTimeoutNs = 60 * 1000000000 := by decide
 
@@ -48,14 +63,17 @@ theorem timeout_wiring :
     (Facts.C12.withTimeoutSetsField && Facts.C12.writerGetsTimeout && Facts.C12.connPassesExchangeTimeout) = true := by
   decide
 
-/-- The flow before the repair of D5: a peer silent at step 5 (index 3) with no caller deadline
-blocks the client forever. -/
+/-- The flow before the repair of D5 (steps 5 and 7 bare `c.conn.Recv`, same helpers): a peer
+silent at step 5 (index 3) with no caller deadline blocks the client forever. -/
 theorem before_fix_counterexample :
     ∃ e ∈ runTrace 150 none (stallAt stepsBeforeFix 3 0 1) 0, e.stop = none := by decide
 
 /-- Non-vacuity: the stalled run really reaches the stalled step and fails there at exactly
-`start + timeout`, and with a nearer caller deadline at that deadline. -/
+`start + timeout`, with a nearer caller deadline at that deadline; a −404 frame at the ResPQ read is
+skipped and the re-read is bounded on its own. -/
 example : (runTrace 150 none (stallAt steps 3 10 1) 0).getLast? = some ⟨43, some 193, false⟩ := by decide
 example : (runTrace 150 (some 100) (stallAt steps 3 10 1) 0).getLast? = some ⟨43, some 100, false⟩ := by decide
+example : runTrace 150 none (steps.zip [⟨0, [], some 1⟩, ⟨0, [20], none⟩]) 0 =
+    [⟨0, some 1, true⟩, ⟨1, some 21, true⟩, ⟨21, some 171, false⟩] := by decide
 
 end TdModel.C12
